@@ -58,6 +58,7 @@ def handleFail (r : Req) : String :=
     | some (.panic p, _) => if p.startsWith "model:" then "unsupported" else "panic"
     | some (.ok _, _) => "ok"
     | some (.err e, m2) =>
+      if isModelGap (.err e : Outcome Unit) then "unsupported" else
       match s.dmap[m2.ctx.ip]? with
       | some tok => if m2.ctx.ip < m.code.length then "unsupported" else s!"err {errStr e} tok={tok} {locStr r tok}"
       | none => "unsupported"
